@@ -667,6 +667,15 @@ def c11(tier, seed):
             except Exception as e:      # noqa
                 bad.append('observing the filtered analysis raised %s: %s' % (type(e).__name__, e))
                 continue
+            if fk == 0:
+                # a filtered analysis is an analysis: comparisons partition its genomes, its whole-dataset profile balances
+                try:
+                    fp_, fgs_ = orc.lineage_pairs(hf)
+                    bad += ['on the filtered analysis: ' + b for b in orc.c05(D, hf, fp_ if len(fp_) <= 6 else ex.rng.sample(fp_, 6))]
+                    bad += ['on the filtered analysis: ' + b for b in orc.c09(D, hf, ex.tmp)]
+                    ex.res.count('filtered_analyses_compared_and_profiled')
+                except Exception as e:      # noqa
+                    bad.append('comparison / profile on the filtered analysis raised %s: %s' % (type(e).__name__, e))
             # the property itself: projection of the full load
             if sorted(hf.get_dict_top_level_hogs()) != sorted(want_fams):
                 bad.append('filter %s/%s/%s selected %s, expected %s' % (hog_ids, int_ids, ext_ids, sorted(hf.get_dict_top_level_hogs()), sorted(want_fams)))
